@@ -111,11 +111,19 @@ class Sut(object):
 
 # ---------------------------------------------------------------------------
 def canon_report(rep):
-    return (
+    out = (
         "report",
         rep.nb_created_pages,
         tuple(sorted((k, tuple(sorted(v))) for k, v in rep.created_webentities.items())),
     )
+    # the report is the caller's: it is taken apart once read (lists emptied, dict cleared, counter
+    # zeroed), which must not reach the index or any later report
+    for v in list(rep.created_webentities.values()):
+        if isinstance(v, list):
+            del v[:]
+    rep.created_webentities.clear()
+    rep.nb_created_pages = 0
+    return out
 
 
 def canon_model_report(rep):
@@ -184,6 +192,15 @@ def resolve_refs(op, model):
             r["weid"] = weid
             r["prefixes"] = model.we_prefixes(weid)
     return r
+
+
+def drive_exhaust(gen):
+    """A caller that keeps calling next() until the generator stops, and takes the result of
+    the last state it saw."""
+    last = None
+    for state in gen:
+        last = state
+    return last.result if last is not None else None
 
 
 def drive_until_done(gen):
@@ -365,6 +382,8 @@ def exec_sut(sut, op, refs, model):
                 data[arg(s)] = tl if form == "list" else (tuple(tl) if form == "tuple" else iter(tl))
             if op.get("drive") == "until_done":
                 return canon_report(drive_until_done(t.index_batch_crawl_iter(data, op.get("yf", 50))))
+            if op.get("drive") == "exhaust":
+                return canon_report(drive_exhaust(t.index_batch_crawl_iter(data, op.get("yf", 50))))
             return canon_report(t.index_batch_crawl(data, yield_frequency=op.get("yf", 50)))
         if k == "create_we":
             return canon_report(t.create_webentity([arg(p) for p in op["prefixes"]]))
@@ -402,6 +421,8 @@ def exec_sut(sut, op, refs, model):
         if k == "add_rule":
             if op.get("drive") == "until_done":
                 return canon_report(drive_until_done(t.add_webentity_creation_rule_iter(arg(op["anchor"]), lrugen.RULES[op["rule"]])))
+            if op.get("drive") == "exhaust":
+                return canon_report(drive_exhaust(t.add_webentity_creation_rule_iter(arg(op["anchor"]), lrugen.RULES[op["rule"]])))
             return canon_report(t.add_webentity_creation_rule(arg(op["anchor"]), lrugen.RULES[op["rule"]]))
         if k == "remove_rule":
             return ("ok", t.remove_webentity_creation_rule(arg(op["anchor"])))
